@@ -22,7 +22,7 @@ import (
 
 type cfgStats struct {
 	cases, strictOK, strictRejected, expandCases int
-	fileParses                                   int
+	fileParses, tabbed                           int
 	distinct                                     map[string]struct{}
 	samples                                      []string
 	positions                                    int
@@ -244,6 +244,50 @@ func emitStrictCase(w *caseWriter, id, doc string, st *cfgStats, what string) {
 	h := hexsum(sha256b, []byte(doc))
 	if _, ok := st.distinct[h]; !ok {
 		st.distinct[h] = struct{}{}
+	}
+}
+
+// emitTabbedCase: the same keys in a text whose indentation uses tabs (one for every two blanks) in one block, or in all of
+// them. YAML does not allow that, so the parser may refuse the text for that reason - what it may not do is accept it and
+// drop a key it does not define. The tokens are those of the document as it was before the tabs went in.
+func emitTabbedCase(w *caseWriter, id, doc string, st *cfgStats, what string) {
+	var root yaml.Node
+	if err := yaml.Unmarshal([]byte(doc), &root); err != nil {
+		return
+	}
+	var toks []string
+	docTokens(&root, &toks)
+	lines := strings.Split(doc, "\n")
+	tab := func(l string) string {
+		n := 0
+		for strings.HasPrefix(l[n:], "  ") {
+			n += 2
+		}
+		return strings.Repeat("\t", n/2) + l[n:]
+	}
+	variants := map[string]string{}
+	all := make([]string, len(lines))
+	firstDone := false
+	one := append([]string{}, lines...)
+	for i, l := range lines {
+		all[i] = tab(l)
+		if !firstDone && strings.HasPrefix(l, "  ") && !strings.HasPrefix(strings.TrimSpace(l), "-") {
+			one[i] = tab(l)
+			firstDone = true
+		}
+	}
+	variants["-all"] = strings.Join(all, "\n")
+	variants["-one"] = strings.Join(one, "\n")
+	for _, suffix := range []string{"-all", "-one"} {
+		text := variants[suffix]
+		if text == doc {
+			continue
+		}
+		cls, _ := parseClass(text, nil)
+		w.line("strict %s %s %s", id+suffix, cls, strings.Join(toks, " "))
+		writeDesc(id+suffix, map[string]string{"kind": "strict", "yaml": text, "what": what})
+		st.cases++
+		st.tabbed++
 	}
 }
 
@@ -555,6 +599,7 @@ func cmdC16(prop, tier string, seed int64, out, statsOut, replay string) {
 			break
 		}
 		emitStrictCase(w, fmt.Sprintf("inj-%d", k), d, st, "unknown key added below "+path)
+		emitTabbedCase(w, fmt.Sprintf("inj-%d-tabs", k), d, st, "unknown key added below "+path+"; the document indented with tabs")
 		if d2, p2, ok := misspellKey(full, k, rng); ok {
 			emitStrictCase(w, fmt.Sprintf("mis-%d", k), d2, st, "misspelt key "+p2)
 		}
@@ -574,6 +619,9 @@ func cmdC16(prop, tier string, seed int64, out, statsOut, replay string) {
 		emitStrictCase(w, fmt.Sprintf("gen-%d", i), doc, st, "generated configuration")
 		if d, path, ok := injectUnknown(doc, rng.Intn(40), g.pick([]string{"zzz", "nam", "Depends", "file-info", "mode_", "src "})); ok {
 			emitStrictCase(w, fmt.Sprintf("gen-%d-inj", i), d, st, "unknown key added below "+path)
+			if i%4 == 0 {
+				emitTabbedCase(w, fmt.Sprintf("gen-%d-inj-tabs", i), d, st, "unknown key added below "+path+"; the document indented with tabs")
+			}
 		}
 	}
 	// documents at the edges of YAML
@@ -670,6 +718,13 @@ func cmdC16(prop, tier string, seed int64, out, statsOut, replay string) {
 	for i, e := range envs {
 		emitExpandCase(w, fmt.Sprintf("exp-%d", i), expandDoc, e, st)
 	}
+	// the same under each version schema a document can name: which fields are expanded does not depend on it
+	for si, schema := range []string{"none", "semver"} {
+		for _, i := range []int{0, 2, 3, 8} {
+			emitExpandCase(w, fmt.Sprintf("exp-schema-%s-%d", schema, i), "version_schema: "+schema+"\n"+expandDoc, envs[i], st)
+		}
+		_ = si
+	}
 	// a tilde is a character like any other (the process has a HOME; the caller's mapping knows nothing of it)
 	tildeDoc := "name: tilde\narch: amd64\nversion: 1.0.0\ndeb:\n  signature:\n    key_file: \"~/keys/deb.asc\"\nrpm:\n  signature:\n    key_file: \"~\"\napk:\n  signature:\n    key_file: \"~/keys/${VX}.rsa\"\ncontents:\n  - src: \"~/src/${VX}\"\n    dst: \"/~/${VX}\"\n    expand: true\n  - src: \"~/src\"\n    dst: \"/~\"\n"
 	oldHome := os.Getenv("HOME")
@@ -687,6 +742,6 @@ func cmdC16(prop, tier string, seed int64, out, statsOut, replay string) {
 	}
 	w.close()
 	writeJSON(statsOut, map[string]any{"cases": st.cases, "distinct": len(st.distinct), "distinct_nontrivial": len(st.distinct),
-		"accepted": st.strictOK, "rejected": st.strictRejected, "documents_also_parsed_from_files": st.fileParses, "mapping_positions_of_full_document": st.positions,
+		"accepted": st.strictOK, "rejected": st.strictRejected, "documents_also_parsed_from_files": st.fileParses, "documents_indented_with_tabs": st.tabbed, "mapping_positions_of_full_document": st.positions,
 		"expansion_cases": st.expandCases, "samples": st.samples})
 }
